@@ -64,7 +64,7 @@ def evaluate(case):
         n += 1
         o, why, out = judge(doc, red, nd, at, dr, hu)
         outs[o] += 1
-        if o == "returned" and any(k.split(":")[-1].split("+")[0] in G.FORBIDDEN_IN_OUTPUT or ":" in k for k in ks):
+        if o == "returned" and any(k in G.NESTED or k.split(":")[-1].split("+")[0] in G.FORBIDDEN_IN_OUTPUT or ":" in k for k in ks):
             nts.add(core.h64(doc + repr((nd, at, dr))))
             if sample is None and len(ks) > 1:
                 sample = {"doc": doc, "ndigits": nd, "allow_text": at, "drop_unsupported": dr}
